@@ -74,6 +74,7 @@ func checkC16(w *World, r *Report) {
 	r.Rule("R16.5", "upstream attempts do not share mutable TLS configuration", 3)
 	r.Rule("R16.6", "a closed carrier is seen as closed: the wrappers' Close sets the flag on every path (the reuse test consults Closed())", 2)
 	ruleSafeCloseSetsFlag(w, r, "R16.6")
+	r.Rule("R16.8", "settling on an upstream after a failover is reported as success (no stale error of an earlier upstream)", 1)
 	r.Rule("R16.7", "an upstream counts as meeting the security requirement only over a TLS-built carrier or a TLS scheme (else the first, clear-text upstream is settled on and no later one is tried)", 5)
 	if sites7, _ := findConnectSites(w); len(sites7) > 0 {
 		c04CorrelationClient(w, r, "R16.7", sites7)
@@ -211,6 +212,59 @@ func c16Failover(w *World, r *Report, openM *types.Func) {
 		})
 	}
 	r.Check(bad == "", "R16.2", key, w.Pos(openM.Pos()), "Data[i] for i = 0,1,2,...; failure continues, success returns", bad)
+
+	// R16.8: settling on an upstream is reported as success. On every path on which the last Connect returned nil,
+	// the error open returns is nil, that Connect's own (nil) result, or something produced after that Connect
+	// (the session set-up's error) — never a value left over from an earlier upstream's failure.
+	if connectCall == nil {
+		return
+	}
+	key8 := "method:(*client/upstream.Upstreams).open|success-is-reported"
+	bad8 := ""
+	nsucc := 0
+	okp := enumPaths(fn, nil, func(in ssa.Instruction) bool { _, isCall := in.(*ssa.Call); return isCall }, nil, func(e pathExit) {
+		ret, isRet := e.Last.(*ssa.Return)
+		if !isRet || len(ret.Results) == 0 || bad8 != "" {
+			return
+		}
+		last := -1
+		for i, ev := range e.State.Events {
+			if ev == ssa.Instruction(connectCall) {
+				last = i
+			}
+		}
+		if last < 0 {
+			return
+		}
+		if isNil, known := e.State.NilKnown(connectCall); !known || !isNil {
+			return
+		}
+		nsucc++
+		rv := e.State.Resolve(ret.Results[len(ret.Results)-1])
+		if isConstNil(rv) || rv == ssa.Value(connectCall) {
+			return
+		}
+		var def ssa.Instruction
+		switch x := rv.(type) {
+		case *ssa.Call:
+			def = x
+		case *ssa.Extract:
+			if c, ok := x.Tuple.(*ssa.Call); ok {
+				def = c
+			}
+		}
+		for _, ev := range e.State.Events[last+1:] {
+			if def != nil && ev == def {
+				return
+			}
+		}
+		bad8 = fmt.Sprintf("%s: open can return an error that was produced before the Connect that succeeded (a failure of an earlier upstream kept in %s): the client settles on the upstream, keeps the session, and still fails the local connection that triggered the failover", w.Pos(ret.Pos()), rv.Name())
+	})
+	if !okp {
+		r.Undecided("R16.8", key8, w.Pos(openM.Pos()), "path budget exceeded")
+		return
+	}
+	r.Check(bad8 == "" && nsucc > 0, "R16.8", key8, w.Pos(openM.Pos()), fmt.Sprintf("%d path(s) end after a successful Connect; each returns nil or the error of a later step", nsucc), bad8+mapStr(nsucc == 0, "no path on which Connect succeeds"))
 }
 
 func c16Shared(w *World, r *Report, uc, openM *types.Func) { ruleSharedSession(w, r, "R16.3", uc, openM) }
